@@ -220,9 +220,12 @@ func (p *c12) Init(tier string) {
 	}
 }
 
-func (p *c12) NumCases() int { return len(p.cases) + 1 }
+func (p *c12) NumCases() int { return len(p.cases) + 2 }
 
 func (p *c12) Describe(i int) any {
+	if i == len(p.cases)+1 {
+		return map[string]any{"kind": "a Query whose rows carry deferred items (ASYNC / AWAIT in the statement itself, in a derived table, a CTE, a join operand, a row-scoped subquery, below a multi-dimensional FROM) executed again after an execution that failed at fault point k (every k): plain data only, and the rows of a fresh query"}
+	}
 	if i == len(p.cases) {
 		return map[string]any{"kind": "a function registered again between two evaluations: 7 queries x 3 x 3 registration calls, with an options value shared by two prepared queries and with one query executed twice; both must equal a fresh query"}
 	}
@@ -271,6 +274,10 @@ func (p *c12) RunCase(i int) *core.CaseResult {
 	defer withUsage(r, "C12")()
 	if i == len(p.cases) {
 		runChangedC12(r)
+		return r
+	}
+	if i == len(p.cases)+1 {
+		runReexecC12(r)
 		return r
 	}
 	c := &p.cases[i]
